@@ -202,6 +202,11 @@ class AServer(srv.ASrvHarness):
                  oracles=O, bound=d, cap=cap),
             # a saturated server: several tasks wait inside _enqueue for a free slot
             dict(topo='single', capacity=1, calls=[[[0, BIG, False]], [[1, BIG, False]], [[2, BIG, False]]], oracles=O, bound=d, cap=cap),
+            # at capacity, a request with backpressure is rejected at once - as Server does (backlog invariant checked too)
+            dict(topo='single', capacity=1, gated=['A'], env_wait=True, calls=[[[0, BIG, False]], [[1, BIG, True]]],
+                 oracles=O + ['backlog'], bound=d, cap=cap),
+            dict(topo='single', capacity=2, gated=['A'], env_wait=True, calls=[[[0, BIG, False]], [[1, BIG, False]], [[2, BIG, True]]],
+                 oracles=O + ['backlog'], bound=0 if quick else 1, cap=cap),
             dict(topo='single', capacity=2, nworkers=2, gated=['A'], env_wait=True,
                  calls=[[[0, BIG, False]], [[1, BIG, False]], [[2, BIG, False]], [[3, BIG, False]]], oracles=O, bound=0 if quick else 1, cap=cap),
             dict(topo='single', capacity=2, calls=[[[0, BIG, False]], [[1, BIG, False]], [[2, BIG, False]], [[3, BIG, False]]],
